@@ -321,7 +321,7 @@ pub fn draw_profile(rng: &mut Rng) -> crate::reader::Profile {
         0..=1 => Profile::FULL,
         2..=4 => Profile {
             short_p: *rng.pick(&[32u16, 96, 200, 256]),
-            short_max: *rng.pick(&[1u32, 2, 3, 7, 16, 64]),
+            short_max: *rng.pick(&[1u32, 2, 3, 7, 16, 64, 512, 4096, 8192]),
             eintr_p: 0,
         },
         5 => Profile {
@@ -336,7 +336,7 @@ pub fn draw_profile(rng: &mut Rng) -> crate::reader::Profile {
         },
         _ => Profile {
             short_p: *rng.pick(&[64u16, 160, 256]),
-            short_max: *rng.pick(&[1u32, 3, 7, 31]),
+            short_max: *rng.pick(&[1u32, 3, 7, 31, 1024, 4096]),
             eintr_p: *rng.pick(&[16u16, 51, 90]),
         },
     }
